@@ -920,7 +920,7 @@ def readSlot (st : St) (slot file : String) (modelTag : Option Nat) (impl : List
   ({ st with slots := upsert slot modelTag st.slots,
              o := { st.o with slots := upsert slot { file := file, tag := implTag } st.o.slots } }, v)
 
-def step (st : St) (op impl : List String) : St × Verdict :=
+def stepCore (st : St) (op impl : List String) : St × Verdict :=
   match op with
   | ["wipe"] =>
     ({ st with m := { st.m with conf := {}, groups := [], tokens := [], tokVer := none },
@@ -1047,6 +1047,15 @@ def step (st : St) (op impl : List String) : St × Verdict :=
       else (st, .oracle s!"C18: a crash at system call {name} #{i} of rewriteDescriptionFile left the definition file {state} (neither the old nor the new definition)")
     | _ => (st, .badop "crashrun result")
   | _ => (st, .badop "unknown op")
+
+/-- a request must not alter the in-memory definition of a live group whose file it did not change: the harness appends
+`cache=<group>:<what differs>` when the cached users/wildcard user/keys of a live, unchanged group differ from its file -/
+def step (st : St) (op impl : List String) : St × Verdict :=
+  match impl.find? (·.startsWith "cache=") with
+  | some c =>
+    let (st', _) := stepCore st op (impl.filter (fun t => !t.startsWith "cache="))
+    (st', .oracle s!"C08,C17: after {" ".intercalate (op.take 3)} the in-memory definition of a live group no longer agrees with its (unchanged) file in {(c.drop 6).toString}: a request altered the stored users, passwords or keys that logins and admin checks are evaluated against")
+  | none => stepCore st op impl
 
 def engine : EngineDef := { σ := St, init := {}, step := step }
 
